@@ -1081,3 +1081,5 @@ V("C20", "twin-save-reads-force-overwrite", TRJ, "        # run the saver, and r
 V("C04", "hash-bonds-in-list-order", TOPF, "        hash_value ^= hash(tuple(sorted(self._bonds)))", "        hash_value ^= hash(tuple(self._bonds))", "C04-R3")
 V("C04", "twin-hash-bonds-frozenset", TOPF, "        hash_value ^= hash(tuple(sorted(self._bonds)))", "        hash_value ^= hash(frozenset(self._bonds))", None)
 V("C19", "netcdf-atom-count-unchecked", NCF, "        if n_atoms != self.n_atoms:\n            raise ValueError(\n                \"coordinates has %d atoms, but the file holds %d atoms per frame\" % (n_atoms, self.n_atoms),\n            )\n", "", "C19-R2")
+V("C02", "pdb-frame-and-atoms-one-subscript", "mdtraj/formats/pdb/pdbfile.py", "            coords = f.positions[[frame]][:, atom_slice, :]", "            coords = f.positions[[frame], atom_slice, :]", "C02-R5")
+V("C02", "twin-pdb-frame-slice", "mdtraj/formats/pdb/pdbfile.py", "            coords = f.positions[[frame]][:, atom_slice, :]", "            coords = f.positions[frame : frame + 1][:, atom_slice, :] if frame >= 0 else f.positions[[frame]][:, atom_slice, :]", None)
